@@ -504,6 +504,29 @@ def cut_workload(case, spec, rtol, atol, probe, rng, viol, classes, keys, mon, k
                          "msg": f"flags {p2.hyd.doesPhaseTraceLimitvmax}, expected "
                          f"{want_flags} (phase {phase} cut, end not flagged as spinodal)",
                          "data": out})
+        # classification on the range-limited object itself (thresholds of one phase must
+        # not be taken from the other phase's range): a few admissible walls below the cut
+        for v, T, mm in temps[-4:]:
+            if not v < min(fd, vcut) * (1 - 1e-3):
+                continue
+            m2 = p2.matching(float(v))
+            if m2.get("none") or m2["error"] or m2["branch"] == "template-fallback":
+                continue
+            r1_, r2_ = p2.flux_residuals(m2["vp"], m2["vm"], m2["Tp"], m2["Tm"])
+            if abs(r1_) > 1e-6 or abs(r2_) > 1e-6:
+                continue
+            if not (p2.hyd.TMinLowT <= m2["Tm"] <= p2.hyd.TMaxLowT
+                    and p2.hyd.TMinHighT <= m2["Tp"] <= p2.hyd.TMaxHighT):
+                continue
+            mon["cut_matchings_classified"] = mon.get("cut_matchings_classified", 0) + 1
+            cbm_ = math.sqrt(p2.eos.ref("L", m2["Tm"])["csq"])
+            want_vm = min(float(v), cbm_)
+            if abs(m2["vm"] - want_vm) > 1e-6 + 10 * (atol + rtol):
+                viol.append({"mech": "range-limited-matching-vm-not-min(vw,cb(T-))",
+                             "msg": f"phase {phase} range cut at T(v_cut={vcut:.4f}); wall "
+                             f"v_w={v:.6f} (T-={m2['Tm'] / Tn:.4f} T_n, inside both tabulated "
+                             f"ranges): v-={m2['vm']:.6f}, min(v_w, c_b(T-))={want_vm:.6f} "
+                             f"on {spec}", "data": {"m": m2, **out}})
         # every slower admissible wall inside the tabulated ranges
         for v, T, mm in temps:
             if v < fd and T > Tcut * (1 + 1e-9) + noise:
